@@ -599,7 +599,38 @@ func indexDischarged(w *World, info *types.Info, f *FuncInfo, ix *ast.IndexExpr,
 	}
 	// loop induction variable bounded by len of the same slice
 	if iv := objOf(info, ix.Index); iv != nil {
+		// ... as long as the body leaves both alone: after an `i++` of its own (an escape that takes the next
+		// byte along) the test at the head of the loop says nothing about i any more; the ledger decides those
+		writtenIn := func(body *ast.BlockStmt) bool {
+			written := false
+			ast.Inspect(body, func(n ast.Node) bool {
+				switch y := n.(type) {
+				case *ast.AssignStmt:
+					for _, l := range y.Lhs {
+						if o := objOf(info, l); o != nil && (o == iv || sameObjExpr(info, l, ix.X)) {
+							written = true
+						}
+					}
+				case *ast.IncDecStmt:
+					if objOf(info, y.X) == iv {
+						written = true
+					}
+				case *ast.UnaryExpr:
+					if y.Op == token.AND && objOf(info, y.X) == iv {
+						written = true
+					}
+				}
+				return !written
+			})
+			return written
+		}
 		for p := w.Parent(ix); p != nil; p = w.Parent(p) {
+			if l, ok := p.(*ast.ForStmt); ok && l.Body != nil && writtenIn(l.Body) {
+				break
+			}
+			if rs, ok := p.(*ast.RangeStmt); ok && rs.Body != nil && objOf(info, rs.Key) == iv && writtenIn(rs.Body) {
+				break
+			}
 			if l, ok := p.(*ast.ForStmt); ok && l.Cond != nil {
 				if be, ok := unparen(l.Cond).(*ast.BinaryExpr); ok && be.Op == token.LSS && objOf(info, be.X) == iv {
 					// i < len(x) or i < len(x)-1
